@@ -281,6 +281,11 @@ def _check_calls(params, ns, text, calls, col, flavours, postponed):
                 continue
             if api == "wrap":
                 check_metadata(flavour, orig, target, params, col)
+            # calls whose arguments no annotation of the pool converts (handled failures) come first: what a binding keeps of an
+            # attempt that did not finish must not matter to the calls that follow
+            for junk_a, junk_k in ((("zz", "zz", "zz"), {}), ((), {"ko": "zz", "pk": "zz"}), (("zz",), {"x1": "zz"})):
+                tl.call(target, *junk_a, **junk_k)
+            col.label("history:rejected-calls-first")
             for a, k in calls:
                 col.ev()
                 case = {"params": params, "flavour": flavour, "api": api, "args": list(a), "kwargs": dict(k), "postponed": postponed}
